@@ -1366,6 +1366,17 @@ def verify_variadic_attr_size(
             raise VerifyException(f"expected 0 or 1 values for {name}, but got {l}")
         if not isinstance(d, VariadicDef) and l != 1:
             raise VerifyException(f"expected 1 value for {name}, but got {l}")
+        if l < 0:
+            raise VerifyException(
+                f"expected a non-negative number of values for {name}, but got {l}"
+            )
+
+    length = len(get_op_constructs(op, construct))
+    if sum(def_sizes) != length:
+        raise VerifyException(
+            f"{option.attribute_name} {container_name} describes {sum(def_sizes)} "
+            f"{get_construct_name(construct)}s, but the operation has {length}"
+        )
 
 
 def verify_variadic_same_size(
